@@ -65,7 +65,6 @@ func body(w *runner.W) {
 	scaled(w, e, runOne, "w8t2", 8, 2)
 	scaled(w, e, runOne, "w4t1", 4, 1)
 	fullScale(w, e, runOne)
-	stopProf()
 }
 
 func outcomeClass(res *result, oldLen, newLen int) int {
@@ -154,6 +153,22 @@ func bitStrings(maxLen int) []string {
 type tally struct {
 	evals, nontriv, trans int64
 	outcomes              [36]int
+	reported              map[string]int
+	suppressed            int64
+}
+
+// report caps the number of violation records a worker emits per failure
+// class in a hot loop (a broken writer fails millions of cases).
+func (t *tally) report(fp string) bool {
+	if t.reported == nil {
+		t.reported = map[string]int{}
+	}
+	t.reported[fp]++
+	if t.reported[fp] > 8 {
+		t.suppressed++
+		return false
+	}
+	return true
 }
 
 func (t *tally) add(res *result, oldLen, newLen int) {
@@ -197,7 +212,7 @@ func scaled(w *runner.W, e *env, runOne func(Case, *runner.Rec), variant string,
 				maxLen = 7
 			}
 			if w.Quick() {
-				maxLen = 6
+				maxLen = 5
 			}
 			strs := bitStrings(maxLen)
 			seqs := make([][]stepSeq, maxLen+1)
@@ -217,7 +232,9 @@ func scaled(w *runner.W, e *env, runOne func(Case, *runner.Rec), variant string,
 						res := e.runCase(old, nw, sq.bounds, sq.tags, false)
 						tl.add(&res, len(old), len(nw))
 						for _, f := range res.fails {
-							bin.Report(sq.toCase(g), f.fp, "%s", f.msg)
+							if tl.report(f.fp) {
+								bin.Report(sq.toCase(g), f.fp, "%s", f.msg)
+							}
 						}
 					}
 				}
@@ -245,9 +262,12 @@ func scaled(w *runner.W, e *env, runOne func(Case, *runner.Rec), variant string,
 		if !probe() {
 			pat.Skip(skipMsg())
 		} else {
-			maxNew := 12 // 1.5 windows of 8; 3 windows of 4
+			maxNew := 12 // 1.5 windows of 8
+			if W == 4 {
+				maxNew = 13 // three windows of 4 and one byte of a fourth
+			}
 			if w.Quick() {
-				maxNew = 10
+				maxNew = 9
 			}
 			var tl tally
 			ord := 0
@@ -284,7 +304,9 @@ func scaled(w *runner.W, e *env, runOne func(Case, *runner.Rec), variant string,
 							res := e.runCase(old, nw, sq.bounds, sq.tags, false)
 							tl.add(&res, len(old), len(nw))
 							for _, f := range res.fails {
-								pat.Report(sq.toCase(g), f.fp, "%s", f.msg)
+								if tl.report(f.fp) {
+									pat.Report(sq.toCase(g), f.fp, "%s", f.msg)
+								}
 							}
 						}
 						if n == maxNew && p%1021 == 7 {
